@@ -5,6 +5,7 @@ import (
 	"encoding/hex"
 	"fmt"
 	"math/rand"
+	"reflect"
 
 	"github.com/datastax/go-cassandra-native-protocol/datacodec"
 	"github.com/datastax/go-cassandra-native-protocol/primitive"
@@ -26,6 +27,12 @@ type malRec struct {
 	Hex     string `json:"hex"`
 	Class   string `json:"class"`
 	Err     string `json:"err,omitempty"`
+	// the destination: "*interface {}" (outcome class compared with the abstract decoder) or a typed variable (compared, value included,
+	// with the Go-representation model when its type lies in the modelled universe: Gty != "")
+	Dest    string `json:"dest"`
+	Gty     string `json:"gty,omitempty"`
+	WasNull bool   `json:"was_null"`
+	ResultG string `json:"result_g,omitempty"`
 }
 
 // fieldOffsets walks a well-formed encoding and returns the offsets (and widths) of its count and length fields.
@@ -165,6 +172,7 @@ func maxAlloc(t *ctype, b []byte, ver primitive.ProtocolVersion) int {
 func cmdMalformed(n int) {
 	g := &gen{r: rand.New(rand.NewSource(hlib.Seed() + 29))}
 	id := 0
+	var dests []reflect.Type // typed destinations of the current base, next to the untyped one
 	emit := func(t *ctype, ver primitive.ProtocolVersion, mut string, b []byte) {
 		if maxAlloc(t, b, ver) > 1<<22 {
 			hlib.Emit(&malRec{Kind: "malformed-skipped", Id: fmt.Sprintf("m%d", id), Ver: int(ver), TypeCoq: t.coq(), TypeCql: t.dt.AsCql(), Mut: mut, Hex: hex.EncodeToString(b), Class: "skipped"})
@@ -175,55 +183,47 @@ func cmdMalformed(n int) {
 		if len(e) > 160 {
 			e = e[:160]
 		}
-		hlib.Emit(&malRec{Kind: "malformed", Id: fmt.Sprintf("m%d", id), Ver: int(ver), TypeCoq: t.coq(), TypeCql: t.dt.AsCql(), Mut: mut, Hex: hex.EncodeToString(b), Class: class, Err: e})
+		hlib.Emit(&malRec{Kind: "malformed", Id: fmt.Sprintf("m%d", id), Ver: int(ver), TypeCoq: t.coq(), TypeCql: t.dt.AsCql(), Mut: mut, Hex: hex.EncodeToString(b), Class: class, Err: e,
+			Dest: "*interface {}"})
 		id++
-	}
-	budget := n
-	for budget > 0 {
-		var t *ctype
-		if g.pick(5) == 0 {
-			t = g.scalarType()
-		} else {
-			t = g.typeTree(2 + g.pick(3))
-		}
-		// values small enough to keep every truncation offset affordable
-		var a *aval
-		for tries := 0; ; tries++ {
-			a = g.value(t, false)
-			if a.size() <= 14 || tries > 20 {
-				break
-			}
-		}
-		ver := versions[g.pick(len(versions))]
-		if g.pick(3) == 0 {
-			ver = primitive.ProtocolVersion2
-		}
 		codec, err := datacodec.NewCodec(t.dt)
 		if err != nil {
-			continue
+			return
 		}
-		r := g.plan(t, []*aval{a}, false, true)
-		var enc []byte
-		var eerr error
-		if p, _ := safely(func() { enc, eerr = codec.Encode(r.mk(a).Interface(), ver) }); p || eerr != nil || enc == nil || len(enc) > 400 {
-			continue
+		for _, dt := range dests {
+			res := decodeInto(t, codec, b, ver, dt)
+			hlib.Emit(&malRec{Kind: "malformed", Id: fmt.Sprintf("m%d", id), Ver: int(ver), TypeCoq: t.coq(), TypeCql: t.dt.AsCql(), Mut: mut, Hex: hex.EncodeToString(b),
+				Class: res.Class, Err: res.Err, Dest: "*" + dt.String(), Gty: res.Gty, WasNull: res.WasNull, ResultG: res.G})
+			id++
 		}
-		before := id
+	}
+	// mutate: the mutants of one valid encoding. light: the valid encoding, every count / length field set to -1 and 0, three truncations
+	// (used for the directed key-type bases, which run in every tier into every destination style)
+	mutate := func(t *ctype, ver primitive.ProtocolVersion, enc []byte, light bool) {
 		emit(t, ver, "valid", enc)
+		var offs [][2]int
+		fieldOffsets(t, enc, 0, ver, &offs)
 		// truncation at every offset
 		for k := 0; k < len(enc); k++ {
+			if light && !(k == len(enc)-1 || (len(offs) > 1 && k == offs[1][0]) || (len(offs) > 2 && k == offs[2][0]+1)) {
+				continue
+			}
 			emit(t, ver, fmt.Sprintf("truncate@%d", k), enc[:k])
 		}
 		// count / length fields
-		var offs [][2]int
-		fieldOffsets(t, enc, 0, ver, &offs)
 		for _, ow := range offs {
 			off, w := ow[0], ow[1]
 			var repl []uint32
 			if w == 4 {
 				repl = []uint32{0xffffffff, 0xfffffffe, 0, 1, 0x00100000, 0x80000000, 0x80000001}
+				if light {
+					repl = []uint32{0xffffffff, 0}
+				}
 			} else {
 				repl = []uint32{0, 1, 0xffff, 0xfffe, 0x8000}
+				if light {
+					repl = []uint32{0, 0xffff}
+				}
 			}
 			for _, rv := range repl {
 				m := append([]byte{}, enc...)
@@ -236,6 +236,9 @@ func cmdMalformed(n int) {
 			}
 			// the field off by one in both directions
 			for _, d := range []int{-1, 1} {
+				if light {
+					break
+				}
 				m := append([]byte{}, enc...)
 				if w == 4 {
 					binary.BigEndian.PutUint32(m[off:], uint32(int(binary.BigEndian.Uint32(m[off:]))+d))
@@ -244,6 +247,9 @@ func cmdMalformed(n int) {
 				}
 				emit(t, ver, fmt.Sprintf("field@%d%+d", off, d), m)
 			}
+		}
+		if light {
+			return
 		}
 		// bit flips
 		for k := 0; k < 12 && len(enc) > 0; k++ {
@@ -264,6 +270,82 @@ func cmdMalformed(n int) {
 			}
 			emit(t, ver, "random", m)
 		}
-		budget -= id - before
+	}
+	encode := func(t *ctype, a *aval, r *rep, ver primitive.ProtocolVersion) []byte {
+		codec, err := datacodec.NewCodec(t.dt)
+		if err != nil {
+			return nil
+		}
+		var enc []byte
+		var eerr error
+		if p, _ := safely(func() { enc, eerr = codec.Encode(r.mk(a).Interface(), ver) }); p || eerr != nil || enc == nil || len(enc) > 400 {
+			return nil
+		}
+		return enc
+	}
+	// (1) directed: map / set types whose key decodes to an unhashable or pointer-typed Go value, into every destination style
+	for bi, kb := range keyBases() {
+		ver := primitive.ProtocolVersion4
+		if bi%5 == 4 {
+			ver = primitive.ProtocolVersion2
+		}
+		r := g.plan(kb.t, []*aval{kb.a}, false, true)
+		enc := encode(kb.t, kb.a, r, ver)
+		if enc == nil {
+			continue
+		}
+		dests = dests[:0]
+		seen := map[reflect.Type]bool{}
+		for st := 1; st <= nStyles; st++ {
+			if dt := styleType(kb.t, kb.a, st); !seen[dt] {
+				seen[dt] = true
+				dests = append(dests, dt)
+			}
+		}
+		mutate(kb.t, ver, enc, true)
+	}
+	// (2) generated type trees: every mutant into the untyped destination and into one typed destination (the styles and the
+	// representation the value was encoded from take turns)
+	budget := n
+	for round := 0; budget > 0; round++ {
+		var t *ctype
+		if g.pick(5) == 0 {
+			t = g.scalarType()
+		} else {
+			t = g.typeTree(2 + g.pick(3))
+		}
+		// values small enough to keep every truncation offset affordable
+		var a *aval
+		for tries := 0; ; tries++ {
+			a = g.value(t, false)
+			if a.size() <= 14 || tries > 20 {
+				break
+			}
+		}
+		ver := versions[g.pick(len(versions))]
+		if g.pick(3) == 0 {
+			ver = primitive.ProtocolVersion2
+		}
+		r := g.plan(t, []*aval{a}, false, round%2 == 0)
+		enc := encode(t, a, r, ver)
+		if enc == nil {
+			continue
+		}
+		dests = dests[:0]
+		if st := round % (nStyles + 1); st == 0 {
+			dt := r.gt
+			if dt.Kind() == reflect.Ptr && !isBigPtr(dt) {
+				dt = dt.Elem()
+			}
+			if isBigPtr(dt) {
+				dt = dt.Elem()
+			}
+			dests = append(dests, dt)
+		} else {
+			dests = append(dests, styleType(t, a, st))
+		}
+		before := id
+		mutate(t, ver, enc, false)
+		budget -= (id - before) / 2 // the budget counts mutants; each goes into two destinations
 	}
 }
